@@ -49,6 +49,7 @@ const K_EPOCH: usize = 7;
 const K_REPEAT: usize = 8;
 
 pub struct Plan {
+    pub pars_hint: Option<Vec<usize>>,
     pub cfg: RunCfg,
     pub len: usize,
     pub weights: [u32; 9],
@@ -100,6 +101,9 @@ pub struct Limits {
     pub variants: Option<Vec<String>>,
     pub max_len: Option<usize>,
     pub max_variants: Option<usize>,
+    /// parallel widths of backends that exist only on another target (the list is generated natively
+    /// but executed by the interpreter on that target): batch lengths are also drawn around these
+    pub pars_hint: Option<Vec<usize>>,
 }
 
 pub fn plan(reg: &Registry, prop: Prop, rng: &mut Prng) -> Plan {
@@ -111,6 +115,7 @@ pub fn plan_limited(reg: &Registry, prop: Prop, rng: &mut Prng, lim: &Limits) ->
     if let Some(m) = lim.max_len {
         p.len = p.len.min(m);
     }
+    p.pars_hint = lim.pars_hint.clone();
     p
 }
 
@@ -192,6 +197,7 @@ fn plan_inner(reg: &Registry, prop: Prop, rng: &mut Prng, lim: &Limits) -> Plan 
     }
     let mask = any_detect && rng.chance(1, 2);
     let tasks = rng.range(1, 4) as u8;
+    let strict_arena = rng.chance(1, 4);
     let len = match prop {
         Prop::C15 => rng.range(8, 96),
         _ => rng.range(8, 64),
@@ -233,7 +239,8 @@ fn plan_inner(reg: &Registry, prop: Prop, rng: &mut Prng, lim: &Limits) -> Plan 
         shape_w[3] = 1;
     }
     Plan {
-        cfg: RunCfg { variants, mask, tasks },
+        pars_hint: None,
+        cfg: RunCfg { variants, mask, tasks, strict_arena },
         len,
         weights,
         shape_w,
@@ -432,7 +439,9 @@ impl Gen {
         };
         let shape = SHAPES[rng.weighted(&plan.shape_w)];
         let bs = w.reg.families[inst.fam].block;
-        let region = task as usize * REGION;
+        let at_end = rng.chance(1, 6);
+        // between inaccessible pages only the last region touches the page boundary: send end placements there
+        let region = if at_end && plan.cfg.strict_arena { 3 * REGION } else { task as usize * REGION };
         // parallel width of one of the realisations
         let r = rng.pick(&inst.reals);
         let t = &w.reg.types[r.ty];
@@ -444,6 +453,10 @@ impl Gen {
             })
             .unwrap_or(1)
             .max(1);
+        let par = match &plan.pars_hint {
+            Some(h) if !h.is_empty() && rng.chance(2, 3) => *rng.pick(h),
+            _ => par,
+        };
         let maxn = ((REGION - 64) / 2 / bs).max(1);
         let n = if shape.single() {
             1
@@ -470,7 +483,6 @@ impl Gen {
         } else {
             rng.chance(1, 2)
         };
-        let at_end = rng.chance(1, 6);
         let (in_off, out_off) = if same || len == 0 {
             let off = if at_end {
                 region + REGION - len
